@@ -23,7 +23,7 @@ ASSUMPTIONS = ["independent key of a case citation = (class, volume, page, guess
                "ambiguous in the database and only checked against the independent key"]
 FLOORS = {"quick": {"db_pairs": 2100, "custom_template_pairs": 80, "cross_template_pairs": 15, "db_pairs_unambiguous": 1500, "db_pairs_unambiguous_by_database": 1200, "roundtrips": 1200, "pools": 80,
                     "pool_pairs": 100000, "pool_equal_pairs": 300, "placeholder_objects": 50,
-                    "cross_kind_pairs": 20000},
+                    "cross_kind_pairs": 20000, "nominative_forms": 100},
           "thorough": {"db_pairs": 2100, "custom_template_pairs": 80, "cross_template_pairs": 15, "db_pairs_unambiguous": 1500, "db_pairs_unambiguous_by_database": 1200, "pools": 1500, "pool_pairs": 3000000}}
 NPOOL = {"quick": 12, "thorough": 150}
 SHARDS = {"quick": 8, "thorough": 14}
@@ -264,6 +264,10 @@ def pool(spec, rec, rng):
         if r < 0.45:
             t = (f"{gen.word(rng)} v. {gen.word(rng)}, {v} {rp} {p}"
                  + rng.choice(["", f", {p + 2}", f" ({rng.randint(1900, 2020)})", f", {p + 1} (1999) (noting {gen.word(rng).lower()})"]))
+        elif r < 0.5:
+            # nominative parentheticals do not matter: '5 U.S. (1 Cranch) 137' is '5 U.S. 137'
+            t = f"{gen.word(rng)} v. {gen.word(rng)}, {v} U.S. ({rng.randint(1, 9)} {rng.choice(['Cranch', 'Wheat.', 'Pet.', 'How.', 'Wall.', 'Dall.', 'Black'])}) {p} (18{rng.randint(10, 70)})"
+            rec.count("nominative_forms")
         elif r < 0.6:
             t = f"{gen.word(rng)}, {v} {rp} at {p}"
         elif r < 0.68:
